@@ -189,7 +189,8 @@ BREAK = {
         (['C16.f'], SEC, "            for blk_num in target_block_nums:\n                sop = copy.copy(sop)\n", "            sop = copy.copy(sop)\n            for blk_num in target_block_nums:\n"),
         (['C16.e'], SEC, "                self.addl_protected = bytes(param.value)\n", "                self.addl_protected = cbor2.dumps(cbor2.loads(bytes(param.value)))\n"),
         (['C16.c'], SEC, "            elif isinstance(msg_obj, EncMessage):", "            elif isinstance(msg_obj, MacMessage):"),
-        (['C16.a'], SEC, "                    msg_dec = cbor2.loads(msg_enc)\n                    tgt_blk.setfieldval('btsd', msg_dec[2])\n                    # a parsed payload would put the plaintext back\n                    # when the block is built\n                    tgt_blk.remove_payload()\n                    msg_dec[2] = None\n\n                elif keyops.WrapOp", "                    msg_dec = cbor2.loads(msg_enc)\n                    msg_dec[2] = None\n\n                elif keyops.WrapOp"),
+        (['C16.a'], SEC, "                    tgt_blk.setfieldval('type_code', tgt_blk.getfieldval('type_code'))\n                    tgt_blk.remove_payload()\n                    msg_dec[2] = None\n\n                elif keyops.WrapOp", "                    tgt_blk.remove_payload()\n                    msg_dec[2] = None\n\n                elif keyops.WrapOp"),
+        (['C16.a'], SEC, "                    msg_dec = cbor2.loads(msg_enc)\n                    tgt_blk.setfieldval('btsd', msg_dec[2])\n                    # a parsed payload would put the plaintext back\n                    # when the block is built\n                    # (the block type code it implied is kept)\n                    tgt_blk.setfieldval('type_code', tgt_blk.getfieldval('type_code'))\n                    tgt_blk.remove_payload()\n                    msg_dec[2] = None\n\n                elif keyops.WrapOp", "                    msg_dec = cbor2.loads(msg_enc)\n                    msg_dec[2] = None\n\n                elif keyops.WrapOp"),
         (['C16.a'], SEC, "                    tgt_blk.remove_payload()\n                    msg_dec[2] = None\n\n                elif keyops.WrapOp", "                    msg_dec[2] = None\n\n                elif keyops.WrapOp"),
         (['C16.b'], SEC, "        if plaintext is not None:\n            LOGGER.info('Verified BCB num", "        if plaintext:\n            LOGGER.info('Verified BCB num"),
     ],
